@@ -6,7 +6,7 @@ Null=0, Bool=1 [b], Number=2 [Number[n]], String=3 [String], Array=4 [Vec], Obje
 import z3
 from .models import *
 from .values import *
-from .sstr import SStr, Sym
+from .sstr import SStr
 from .interp import Inconclusive
 
 V = "serde_json::Value"
@@ -270,71 +270,24 @@ def json_index(ctx, ref, v, idx):
 
 
 # ------------------------------------------------------------------ serialisation
+_ESC = {34: '\\"', 92: "\\\\", 8: "\\b", 12: "\\f", 10: "\\n", 13: "\\r", 9: "\\t"}
+
+
 def json_escape(ctx, s):
     out = []
-    for p in s.parts:
-        if isinstance(p, str):
-            buf = []
-            for ch in p:
-                o = ord(ch)
-                if ch == '"':
-                    buf.append('\\"')
-                elif ch == "\\":
-                    buf.append("\\\\")
-                elif o == 8:
-                    buf.append("\\b")
-                elif o == 12:
-                    buf.append("\\f")
-                elif o == 10:
-                    buf.append("\\n")
-                elif o == 13:
-                    buf.append("\\r")
-                elif o == 9:
-                    buf.append("\\t")
-                elif o < 0x20:
-                    buf.append("\\u%04x" % o)
-                else:
-                    buf.append(ch)
-            out.append("".join(buf))
+    for c in s.chars:
+        if type(c) is not int:
+            if not ctx.char_in(c, "json_escape"):
+                out.append(c)
+                continue
+            c = ctx.concretize(c, "char needing JSON escape")
+        if c in _ESC:
+            out.extend(ord(x) for x in _ESC[c])
+        elif c < 0x20:
+            out.extend(ord(x) for x in "\\u%04x" % c)
         else:
-            out.extend(escape_sym_part(ctx, p))
-    return SStr(out)
-
-
-def escape_sym_part(ctx, p):
-    if sym_safe(ctx, p):
-        return [p]
-    if p.n is None:
-        raise Inconclusive("JSON-escaping a symbolic string of unknown length")
-    # per-byte decision
-    out = []
-    for i in range(p.n):
-        e = p.e if p.n == 1 else z3.SubString(p.e, i, 1)
-        code = z3.StrToCode(e)
-        if ctx.decide(code == 34):
-            out.append('\\"')
-        elif ctx.decide(code == 92):
-            out.append("\\\\")
-        elif ctx.decide(code < 32):
-            c = ctx.concretize(code, "control char")
-            out.append(json_escape(ctx, SStr.lit(chr(c))).concrete())
-        else:
-            out.append(Sym(e, 1))
-    return out
-
-
-def sym_safe(ctx, p):
-    key = p.e.get_id()
-    cache = ctx.__dict__.setdefault("_safe_cache", {})
-    r = cache.get(key)
-    if r is None:
-        e = p.e
-        bad = z3.Or(z3.Contains(e, z3.StringVal('"')), z3.Contains(e, z3.StringVal("\\")),
-                    z3.InRe(e, z3.Concat(z3.Full(z3.ReSort(z3.StringSort())), z3.Range(chr(0), chr(31)),
-                                         z3.Full(z3.ReSort(z3.StringSort())))))
-        r = not ctx.feasible(bad)
-        cache[key] = r
-    return r
+            out.append(c)
+    return SStr.of_chars(out)
 
 
 def num_to_sstr(ctx, n):
@@ -445,26 +398,31 @@ class JsonErr(Exception):
 
 
 class JParser:
-    """JSON parser over segmented strings. Symbolic parts are accepted inside string literals
-    (when they need no escaping) and as integer literals (str.from_int terms)."""
+    """JSON parser over byte strings whose bytes may be symbolic: every test on a symbolic byte is
+    decided by the solver (forking when both outcomes are feasible)."""
 
     def __init__(self, ctx, s):
         self.ctx = ctx
-        # flatten into a list of tokens: single chars or Sym
-        self.toks = []
-        for p in s.parts:
-            if isinstance(p, str):
-                self.toks.extend(p)
-            else:
-                self.toks.append(p)
+        self.toks = list(s.chars)
         self.i = 0
 
     def peek(self):
-        return self.toks[self.i] if self.i < len(self.toks) else None
+        """next byte as a python int (symbolic bytes at structural positions are concretised by forking)"""
+        if self.i >= len(self.toks):
+            return None
+        c = self.toks[self.i]
+        if type(c) is not int:
+            c = self.ctx.concretize(c, "JSON structural byte", limit=300)
+            self.toks[self.i] = c
+        return c
 
     def ws(self):
-        while self.i < len(self.toks) and isinstance(self.toks[self.i], str) and self.toks[self.i] in " \t\n\r":
-            self.i += 1
+        while True:
+            c = self.peek()
+            if c is not None and c in (32, 9, 10, 13):
+                self.i += 1
+            else:
+                return
 
     def parse_document(self):
         self.ws()
@@ -481,140 +439,142 @@ class JParser:
         t = self.peek()
         if t is None:
             raise JsonErr("EOF")
-        if isinstance(t, Sym):
-            return self.sym_token(t)
-        if t == "{":
+        if t == 123:
             self.i += 1
             m = jmap()
             self.ws()
-            if self.peek() == "}":
+            if self.peek() == 125:
                 self.i += 1
                 return jv(OBJ, m)
             while True:
                 self.ws()
-                if self.peek() != '"':
+                if self.peek() != 34:
                     raise JsonErr("key must be a string")
                 k = self.string()
                 self.ws()
-                if self.peek() != ":":
+                if self.peek() != 58:
                     raise JsonErr("expected colon")
                 self.i += 1
                 v = self.value(depth + 1)
                 map_insert(self.ctx, m, StringObj(k), v)
                 self.ws()
                 t = self.peek()
-                if t == ",":
+                if t == 44:
                     self.i += 1
                     continue
-                if t == "}":
+                if t == 125:
                     self.i += 1
                     return jv(OBJ, m)
                 raise JsonErr("expected , or }")
-        if t == "[":
+        if t == 91:
             self.i += 1
             items = []
             self.ws()
-            if self.peek() == "]":
+            if self.peek() == 93:
                 self.i += 1
                 return jv(ARR, VecObj(items))
             while True:
                 items.append(self.value(depth + 1))
                 self.ws()
                 t = self.peek()
-                if t == ",":
+                if t == 44:
                     self.i += 1
                     continue
-                if t == "]":
+                if t == 93:
                     self.i += 1
                     return jv(ARR, VecObj(items))
                 raise JsonErr("expected , or ]")
-        if t == '"':
+        if t == 34:
             return jstr(self.string())
-        if t == "t" and self.lit("true"):
+        if t == 116:
+            self.lit("true")
             return jv(BOOL, True)
-        if t == "f" and self.lit("false"):
+        if t == 102:
+            self.lit("false")
             return jv(BOOL, False)
-        if t == "n" and self.lit("null"):
+        if t == 110:
+            self.lit("null")
             return jv(NULL)
-        if t == "-" or t.isdigit():
+        if t == 45 or 48 <= t <= 57:
             return self.number()
         raise JsonErr("expected value")
 
     def lit(self, w):
-        seg = self.toks[self.i:self.i + len(w)]
-        if all(isinstance(x, str) for x in seg) and "".join(seg) == w:
-            self.i += len(w)
-            return True
-        raise JsonErr("expected ident")
-
-    def sym_token(self, t):
-        e = t.e
-        if e.decl().kind() == z3.Z3_OP_INT_TO_STR:
+        for ch in w:
+            if self.peek() != ord(ch):
+                raise JsonErr("expected ident")
             self.i += 1
-            return jnum(e.arg(0))
-        # symbolic byte outside of a string: decide what it can be
-        raise Inconclusive("symbolic JSON structure: %s" % e)
 
     def number(self):
-        j = self.i
-        txt = []
-        while j < len(self.toks) and isinstance(self.toks[j], str) and self.toks[j] in "+-0123456789.eE":
-            txt.append(self.toks[j])
-            j += 1
-        if j < len(self.toks) and isinstance(self.toks[j], Sym):
-            raise Inconclusive("number adjacent to symbolic part")
-        s = "".join(txt)
-        self.i = j
-        import re
-        if not re.fullmatch(r"-?(0|[1-9][0-9]*)(\.[0-9]+)?([eE][+-]?[0-9]+)?", s):
+        # digits may be symbolic (rendering of a symbolic integer): keep the value symbolic
+        start = self.i
+        neg = False
+        if self.peek() == 45:
+            neg = True
+            self.i += 1
+        digs = []
+        ctx = self.ctx
+        while self.i < len(self.toks):
+            c = self.toks[self.i]
+            if ctx.char_in(c, "digit"):
+                digs.append(c)
+                self.i += 1
+            else:
+                break
+        if not digs:
             raise JsonErr("invalid number")
-        if re.fullmatch(r"-?[0-9]+", s):
-            n = int(s)
-            if -(1 << 63) <= n < (1 << 64):
-                return jnum(n)
-            return jnum(Opaque("float", s))
-        return jnum(Opaque("float", s))
+        nxt = self.peek()
+        if nxt is not None and nxt in (46, 101, 69):
+            # fraction / exponent: only concrete text supported
+            j = self.i
+            txt = []
+            while j < len(self.toks) and type(self.toks[j]) is int and chr(self.toks[j]) in "+-0123456789.eE":
+                txt.append(chr(self.toks[j]))
+                j += 1
+            self.i = j
+            if not all(type(d) is int for d in digs):
+                raise Inconclusive("symbolic float literal")
+            import re
+            full = ("-" if neg else "") + "".join(chr(d) for d in digs) + "".join(txt)
+            if not re.fullmatch(r"-?(0|[1-9][0-9]*)(\.[0-9]+)?([eE][+-]?[0-9]+)?", full):
+                raise JsonErr("invalid number")
+            return jnum(Opaque("float", full))
+        d0 = digs[0]
+        if len(digs) > 1:
+            if (type(d0) is int and d0 == 48) or (type(d0) is not int and ctx.decide(d0 == 48)):
+                raise JsonErr("leading zero")
+        v = 0
+        for d in digs:
+            v = v * 10 + (d - 48)
+        if neg:
+            v = -v
+        if isinstance(v, int):
+            if -(1 << 63) <= v < (1 << 64):
+                return jnum(v)
+            return jnum(Opaque("float", str(v)))
+        return jnum(v)
 
     def string(self):
-        assert self.peek() == '"'
+        assert self.peek() == 34
         self.i += 1
         out = []
         ctx = self.ctx
         while True:
-            t = self.peek()
-            if t is None:
+            if self.i >= len(self.toks):
                 raise JsonErr("EOF in string")
+            t = self.toks[self.i]
             self.i += 1
-            if isinstance(t, Sym):
-                if sym_safe(ctx, t):
+            if type(t) is not int:
+                if not ctx.char_in(t, "json_escape"):
                     out.append(t)
                     continue
-                if t.n is None:
-                    raise Inconclusive("parsing unknown-length unsafe symbolic string content")
-                # split into single bytes and decide each
-                bytes_ = [Sym(t.e if t.n == 1 else z3.SubString(t.e, k, 1), 1) for k in range(t.n)]
-                self.toks[self.i:self.i] = bytes_
-                # handle first byte now
-                t = self.toks[self.i]
-                self.i += 1
-                code = z3.StrToCode(t.e)
-                if ctx.decide(code == 34):
-                    return SStr(out)
-                if ctx.decide(code == 92):
-                    out.append(self.escape())
-                    continue
-                if ctx.decide(code < 32):
-                    raise JsonErr("control character in string")
-                cache = ctx.__dict__.setdefault("_safe_cache", {})
-                cache[t.e.get_id()] = True
-                out.append(t)
+                t = ctx.concretize(t, "JSON string byte")
+            if t == 34:
+                return SStr.of_chars(out)
+            if t == 92:
+                out.extend(self.escape())
                 continue
-            if t == '"':
-                return SStr(out)
-            if t == "\\":
-                out.append(self.escape())
-                continue
-            if ord(t) < 0x20:
+            if t < 0x20:
                 raise JsonErr("control character in string")
             out.append(t)
 
@@ -623,44 +583,40 @@ class JParser:
         if t is None:
             raise JsonErr("EOF in escape")
         self.i += 1
-        if isinstance(t, Sym):
-            ctx = self.ctx
-            if t.n != 1:
-                bytes_ = [Sym(z3.SubString(t.e, k, 1), 1) for k in range(t.n)] if t.n else None
-                if bytes_ is None:
-                    raise Inconclusive("escape followed by unknown-length symbolic")
-                self.toks[self.i:self.i] = bytes_[1:]
-                t = bytes_[0]
-            code = z3.StrToCode(t.e)
-            for ch, rep in (('"', '"'), ("\\", "\\"), ("/", "/"), ("b", "\b"), ("f", "\f"), ("n", "\n"), ("r", "\r"), ("t", "\t")):
-                if ctx.decide(code == ord(ch)):
-                    return rep
-            if ctx.decide(code == ord("u")):
-                raise Inconclusive("symbolic \\u escape")
-            raise JsonErr("invalid escape")
-        m = {'"': '"', "\\": "\\", "/": "/", "b": "\b", "f": "\f", "n": "\n", "r": "\r", "t": "\t"}
+        m = {34: 34, 92: 92, 47: 47, 98: 8, 102: 12, 110: 10, 114: 13, 116: 9}
         if t in m:
-            return m[t]
-        if t == "u":
-            hx = self.toks[self.i:self.i + 4]
-            if len(hx) < 4 or not all(isinstance(x, str) and x in "0123456789abcdefABCDEF" for x in hx):
-                raise JsonErr("invalid unicode escape")
-            self.i += 4
+            return [m[t]]
+        if t == 117:
+            hx = []
+            for _ in range(4):
+                c = self.peek()
+                if c is None or chr(c) not in "0123456789abcdefABCDEF":
+                    raise JsonErr("invalid unicode escape")
+                hx.append(chr(c))
+                self.i += 1
             cp = int("".join(hx), 16)
             if 0xD800 <= cp < 0xDC00:
-                nx = self.toks[self.i:self.i + 6]
-                if len(nx) == 6 and nx[0] == "\\" and nx[1] == "u" and all(isinstance(x, str) for x in nx):
-                    lo = int("".join(nx[2:]), 16)
-                    if 0xDC00 <= lo < 0xE000:
-                        self.i += 6
-                        cp = 0x10000 + ((cp - 0xD800) << 10) + (lo - 0xDC00)
-                    else:
+                if self.peek() == 92:
+                    self.i += 1
+                    if self.peek() != 117:
                         raise JsonErr("lone surrogate")
+                    self.i += 1
+                    lo = []
+                    for _ in range(4):
+                        c = self.peek()
+                        if c is None or chr(c) not in "0123456789abcdefABCDEF":
+                            raise JsonErr("invalid unicode escape")
+                        lo.append(chr(c))
+                        self.i += 1
+                    lo = int("".join(lo), 16)
+                    if not (0xDC00 <= lo < 0xE000):
+                        raise JsonErr("lone surrogate")
+                    cp = 0x10000 + ((cp - 0xD800) << 10) + (lo - 0xDC00)
                 else:
                     raise JsonErr("lone surrogate")
             elif 0xDC00 <= cp < 0xE000:
                 raise JsonErr("lone surrogate")
-            return chr(cp).encode("utf-8").decode("latin-1")
+            return list(chr(cp).encode("utf-8"))
         raise JsonErr("invalid escape")
 
 
